@@ -74,8 +74,12 @@ def single_alphabet(pair, cross: bool) -> list:
         if not cross:
             evs.append(["line", [1, 4, 1, 0, t, "v"]])
             evs.append(["line", [1, 4, 2, 0, t, ""]])
-    for t in (1, 6, 13):
-        evs.append(["send", [1, 255, 3, 0, t, "p"], False])
+    for t in range(0, R.INTERNAL_MAX[old] + 1):
+        evs.append(["send", [1, 255, 3, 0, t, "p"], None])
+        if t in (1, 6, 13, 18, 24):
+            evs.append(["send", [1, 255, 3, 0, t, "p"], False])
+    for t in range(0, 6):
+        evs.append(["send", [1, 255, 4, 0, t, "p"], None])
     evs.append(["line", [1, 255, 0, 0, 17, "2.0"]])
     evs.append(["line", [1, 255, 0, 0, 18, "1.4"]])
     return evs
@@ -213,7 +217,7 @@ def type_product_job(job):
         for vt in range(0, R.V_MAX[pair[0]] + 1):
             n += 1
             mon = Monitor({"pair": pair, "cross": False, "mode": "hist"})
-            hist = [["line", [1, 255, 0, 0, 17, "2.0"]], ["line", [1, 5, 0, 0, ct, "d"]], ["line", [1, 5, 1, 0, vt, "v"]], ["line", [1, 5, 2, 0, vt, ""]], ["send", [1, 5, 1, 0, vt, "s"], None]]
+            hist = [["line", [1, 255, 0, 0, 17, "2.0"]], ["line", [1, 5, 0, 0, ct, "d" if (ct + vt) % 2 else ""]], ["line", [1, 5, 1, 0, vt, "v"]], ["line", [1, 5, 2, 0, vt, ""]], ["send", [1, 5, 1, 0, vt, "s"], None]]
             for i, ev in enumerate(hist):
                 v = mon.apply(ev)
                 for k, w, _x in v:
